@@ -351,8 +351,8 @@ class Loop(Node):
 
 
 FAULTS = ["select", "plus", "call5", "sleep", "count", "countlast", "while", "whileempty", "selectcode", "findif",
-          "scopename", "breakout", "countnoval"]
-WARNS = ["warn_select", "warn_undef", "warn_count", "warn_for", "warn_nilarg"]
+          "scopename", "breakout"]
+WARNS = ["warn_select", "warn_undef", "warn_count", "warn_for", "warn_nilarg", "warn_countnoval"]
 
 
 class Fault(Node):
@@ -367,7 +367,6 @@ class Fault(Node):
         elif k == "sleep": e = un("sleep", n_(1))
         elif k == "count": e = bi("count", code(m1 + [st(n_(5))]), arr(n_(1), n_(2)))
         elif k == "countlast": e = bi("count", code(m1 + [st(("V", "_x"))]), arr(("B", True), n_(5)))
-        elif k == "countnoval": e = bi("count", code(m1 + [("=", "gz", n_(1))]), arr(n_(1), n_(2)))
         elif k == "while": e = bi("do", un("while", code(m1 + [st(("S", "x"))])), code(m2))
         elif k == "whileempty": e = bi("do", un("while", code([])), code(m2))
         elif k == "selectcode": e = bi("select", arr(n_(1), n_(2)), code(m1 + [st(n_(3))]))
@@ -380,7 +379,7 @@ class Fault(Node):
         return [self.stmt]
     def run(self, s):
         k = self.kind
-        if k in ("count", "while", "selectcode", "findif", "scopename", "countnoval", "waituntil"): self.m1.run(s)
+        if k in ("count", "while", "selectcode", "findif", "scopename", "waituntil"): self.m1.run(s)
         if k == "countlast": self.m1.run(s); self.m1.run(s)
         return ("E", self)
 
@@ -395,9 +394,12 @@ class Warn(Node):
         if k == "warn_count": return [st(bi("count", code(m1 + [st(("V", "_nosuchvar"))]), arr(n_(1))))]
         if k == "warn_for": return [st(bi("do", bi("to", bi("from", un("for", ("S", "_i")), n_(0)), n_(1)), code(m1 + [("=", "_i", ("S", "x"))])))]
         if k == "warn_nilarg": return [st(un("diag_log", ("V", "_nosuchvar")))]
+        # a body that ends in an assignment yields nil in every round (repair C05 exit-behaviour-no-value): a warning per round, no error
+        if k == "warn_countnoval": return [st(bi("count", code(m1 + [("=", "gz", n_(1))]), arr(n_(1), n_(2))))]
         raise ValueError(k)
     def run(self, s):
         if self.kind in ("warn_count", "warn_for"): self.m1.run(s)
+        if self.kind == "warn_countnoval": self.m1.run(s); self.m1.run(s)
         return NORMAL
 
 
